@@ -72,6 +72,10 @@ def shards(tier):
     for sub in ([0, 3], [3], [0, 1, 3]):
         for ii in range(len(ID_SETS)):
             out.append({'subset': sub, 'ids': ii, 'pages': BOUNDS[tier]['pages'], 'inlogits': 1})
+    # PAGE XML, rendering and logits in ONE output directory (their extensions differ; ALTO and the line crops keep their own)
+    for sub in ([0, 1], [0, 2], [1, 2], [0, 1, 2], [0, 1, 2, 3, 4]):
+        for ii in (0, 2):
+            out.append({'subset': sub, 'ids': ii, 'pages': BOUNDS[tier]['pages'], 'shared': 1})
     # resume in several worker processes (the model-free stages, which is what --process-count supports): one shard per kill point
     for n in BOUNDS[tier]['procs']:
         for k in range(MP_WRITES + 1):
@@ -103,13 +107,17 @@ class World:
                 f.write(pipeline.config_text('GREEDY'))
         self.out = os.path.join(self.root, 'out')
 
+    def dir_of(self, kind):
+        """output directory of a kind; in a 'shared' world PAGE XML, rendering and logits (three different extensions) go to ONE directory"""
+        return 'shared' if getattr(self, 'shared', False) and kind in ('xml', 'render', 'logits') else kind
+
     def argv(self):
         a = ['parse_folder.py', '-c', os.path.join(self.root, 'config.ini'), '-i', os.path.join(self.root, 'img'),
              '-x', os.path.join(self.root, 'xml'), '--device', 'cpu', '-s']
         flags = {'xml': '--output-xml-path', 'render': '--output-render-path', 'logits': '--output-logit-path',
                  'alto': '--output-alto-path', 'lines': '--output-line-path'}
         for k in self.subset:
-            a += [flags[KINDS[k]], os.path.join(self.out, KINDS[k])]
+            a += [flags[KINDS[k]], os.path.join(self.out, self.dir_of(KINDS[k]))]
         if self.skip_missing_xml:
             a += ['--skipp-missing-xml']
         if getattr(self, 'input_logits', None):
@@ -235,13 +243,15 @@ def complete_pages(state, ref, ids):
 
 def evaluate(world, hist, ref, ctx, case):
     """state reached by `hist` is on disk; run the final uninterrupted resume and check all clauses"""
-    K = f'{ID}/{"+".join(KINDS[k] for k in world.subset)}' + ('/parser-without-ocr-fed-with-saved-logits' if getattr(world, 'input_logits', None) else '')
+    K = f'{ID}/{"+".join(KINDS[k] for k in world.subset)}' + ('/parser-without-ocr-fed-with-saved-logits' if getattr(world, 'input_logits', None) else '') + \
+        ('/xml-render-logits-in-one-directory' if getattr(world, 'shared', False) else '')
     before = canon(world.snapshot())
     done_before = complete_pages(before, ref, world.ids)
     r = world.run(None)
     ctx.executed()
     after = canon(world.snapshot())
-    desc = (f'outputs {[KINDS[k] for k in world.subset]}, page ids {world.ids}, crash points {hist} (kill before the k-th write of each run), '
+    desc = (f'outputs {[KINDS[k] for k in world.subset]}' + (' (PAGE XML, rendering and logits written to one directory)' if getattr(world, 'shared', False) else '') +
+            f', page ids {world.ids}, crash points {hist} (kill before the k-th write of each run), '
             f'then an uninterrupted resume')
     if r['error']:
         nothing = len(done_before) == len(world.ids)
@@ -252,7 +262,8 @@ def evaluate(world, hist, ref, ctx, case):
         missing = sorted(set(dict(ref)) - set(dict(after)))
         extra = sorted(set(dict(after)) - set(dict(ref)))
         differ = sorted(rel for rel in dict(ref) if rel in dict(after) and dict(after)[rel] != dict(ref)[rel])
-        kinds = sorted({m.split(os.sep)[0] for m in missing + differ + extra})
+        kinds = sorted({m.split(os.sep)[0] if m.split(os.sep)[0] != 'shared' else {'.xml': 'xml', '.jpg': 'render'}.get(os.path.splitext(m)[1], 'logits')
+                        for m in missing + differ + extra})
         ctx.violation('every-output-present-and-equal', f'{K}/incomplete-after-resume/{"+".join(kinds)}',
                       f'{desc}: missing {missing}, different {differ}, unexpected {extra}', case)
         return False
@@ -288,6 +299,9 @@ def explore(shard, ctx, tier, only_hist=None):
         ctx.tag('parser-without-ocr-fed-with-saved-logits')
     else:
         world = World(shard['subset'], shard['ids'], 'w', npages=shard.get('pages', 2))
+        if shard.get('shared'):
+            world.shared = True
+            ctx.tag('several-output-kinds-in-one-directory')
     try:
         r0 = world.run(None)
         ctx.executed()
@@ -304,7 +318,7 @@ def explore(shard, ctx, tier, only_hist=None):
                 if kind == 'lines':
                     expected |= {os.path.join('lines', f'{pid}-r1-l{j + 1:03d}.jpg') for j in range(nl)}
                 else:
-                    expected.add(os.path.join(kind, pid + {'xml': '.xml', 'render': '.jpg', 'logits': '.logits', 'alto': '.xml'}[kind]))
+                    expected.add(os.path.join(world.dir_of(kind), pid + {'xml': '.xml', 'render': '.jpg', 'logits': '.logits', 'alto': '.xml'}[kind]))
         have = {rel for rel, _ in ref}
         if have != expected:
             ctx.violation('every-output-present-and-equal', f'{ID}/uninterrupted-run-writes-wrong-files',
@@ -324,7 +338,7 @@ def explore(shard, ctx, tier, only_hist=None):
             nxt = []
             for key in frontier:
                 snap, hist = seen[key]
-                ctx.state((tuple(shard['subset']), shard['ids'], bool(shard.get('inlogits')), key))
+                ctx.state((tuple(shard['subset']), shard['ids'], bool(shard.get('inlogits')), bool(shard.get('shared')), key))
                 # the final resume from this state
                 world.restore(snap)
                 ctx.begin_case(dict(shard, hist=hist))
@@ -445,7 +459,7 @@ def run_shard(shard, ctx, tier):
 def check_case(case, ctx):
     if 'mp' in case:
         return explore_mp(case, ctx)
-    explore({'subset': case['subset'], 'ids': case['ids'], 'pages': case.get('pages', 2), 'inlogits': case.get('inlogits', 0)}, ctx, 'replay',
+    explore({'subset': case['subset'], 'ids': case['ids'], 'pages': case.get('pages', 2), 'inlogits': case.get('inlogits', 0), 'shared': case.get('shared', 0)}, ctx, 'replay',
             only_hist=case['hist'])
 
 
@@ -457,5 +471,5 @@ def describe(tier):
         'bounds': dict(BOUNDS[tier], subsets=len(subsets(tier)), id_sets=ID_SETS),
         'alphabets': {'outputs': KINDS, 'page_ids': ID_SETS},
         'assumptions': ['a kill leaves every earlier write complete and the interrupted one absent (no torn files)'],
-        'min_nontrivial': 20, 'required_tags': ['interrupted-states', 'state-with-partially-written-page', 'multi-process-resume', 'fewer-pages-left-than-worker-processes', 'parser-without-ocr-fed-with-saved-logits'],
+        'min_nontrivial': 20, 'required_tags': ['several-output-kinds-in-one-directory', 'interrupted-states', 'state-with-partially-written-page', 'multi-process-resume', 'fewer-pages-left-than-worker-processes', 'parser-without-ocr-fed-with-saved-logits'],
     }
